@@ -33,6 +33,7 @@ fn table(id: &str) -> Option<(RunFn, ReplayFn)> {
         "C08" => (props::c08::run, props::c08::replay),
         "C09" => (props::c09::run_check, props::c09::replay),
         "C10" => (props::c10::run_check, props::c10::replay),
+        "C11" => (props::c11::run_check, props::c11::replay),
         "C15" => (props::c15::run, props::c15::replay),
         _ => return None,
     })
